@@ -1,7 +1,7 @@
 (* C07  The share field is the integers mod 2^128+12451 with one canonical encoding.  Statements only. *)
 From Coq Require Import ZArith Znumtheory NArith List Field.
 Import ListNotations.
-From StarV Require Import Params Bytes Fp Primality FieldFacts ShamirFacts LimbPrim LimbGen FpLimbs LimbFacts.
+From StarV Require Import Params Bytes Fp Primality FieldFacts ShamirFacts LimbPrim LimbGen FpLimbs LimbFacts LimbLift.
 Open Scope Z_scope.
 
 (* the modulus the source declares is 2^128 + 12451 and is prime (Pratt certificate, checked by the kernel) *)
@@ -143,3 +143,20 @@ Qed.
 Theorem C07_limbs_pow_vartime : forall (a : limbs) (exp : list Z), lvalid a -> Forall wf64 exp ->
   lvalid (lpow_vartime a exp) /\ labs (lpow_vartime a exp) = fpow (labs a) (words_val exp).
 Proof. exact lpow_vartime_correct. Qed.
+
+(* the 24-byte codec of the limb code, byte for byte the big-integer codec *)
+Theorem C07_limbs_to_repr_bytes : forall a : limbs, lvalid a -> lto_repr a = to_repr (labs a).
+Proof. exact lto_repr_correct. Qed.
+Theorem C07_limbs_from_repr_bytes : forall bs : bytes, wf bs ->
+  match lfrom_repr bs, from_repr bs with
+  | Some t, Some x => lvalid t /\ labs t = x
+  | None, None => True
+  | _, _ => False
+  end.
+Proof. exact lfrom_repr_correct. Qed.
+(* lifting: every expression over the operators of the type (variables are any limbs below the modulus) evaluates in the
+   limb code to the Montgomery form of its big-integer value, and fails (invert of zero, an out-of-range u64) exactly when
+   the big-integer evaluation does *)
+Theorem C07_limbs_lift : forall (env : list limbs) (e : fexpr), Forall lvalid env ->
+  orel (eval_l env e) (eval_f (map labs env) e).
+Proof. exact eval_lift. Qed.
